@@ -442,7 +442,7 @@ class Sel(Family):
         # ---------------- E. polygon-like regions ----------------
         shapes = self.shapes()
         for xk, yk in kinds:
-            combos = [(3, 3, False), (5, 2, True), (1, 1, False), (3, 3, True)]
+            combos = [(3, 3, False), (5, 2, True), (1, 1, False), (3, 3, True), (3, 3, "dup")]
             if thorough:
                 combos += [(4, 5, True), (2, 4, False), (5, 2, False)]
             for kx, ky, explicit in combos:
@@ -454,6 +454,8 @@ class Sel(Family):
                 # custom category order: x rotated (5) / reversed (3), y a non-sorted permutation
                 xorder = self.unsorted(xl[2:] + xl[:2] if kx > 3 else xl, rng) if explicit else None
                 yorder = self.unsorted(yl, rng) if explicit else None
+                if explicit == "dup":       # lists with duplicated entries: a label has two positions
+                    xorder, yorder = xorder + xorder[:1], yorder[:2] + yorder[1:]
                 step = Fr(1, 8) if thorough else Fr(1, 4)
                 off = Fr(1, 16)
                 xv = [v + off for v in H(Fr(-3, 2), kx + Fr(1, 2), step)] + H(-1, kx, 1) + [nan]
@@ -463,7 +465,7 @@ class Sel(Family):
                     yv = H(Fr(-3, 2), ky + Fr(1, 2), Fr(1, 2)) + [Fr(5, 16), nan]
                 xcol, ycol = self.product_elems(xk, yk, xl, yl, xv, yv, xorder, yorder)
                 offs = H(Fr(-1, 2), Fr(3, 2)) if not thorough else H(-1, 3)
-                for shape in shapes:
+                for shape in (shapes if explicit != "dup" else shapes[::3]):
                     for dx in offs:
                         for dy in (offs if thorough else offs[::2] + [Fr(1, 4)]):
                             roi = self.translate(shape, dx, dy)
